@@ -43,10 +43,17 @@ pub struct Viol {
     pub sig: String,
     /// human-readable detail (may differ between a violation and its minimised form)
     pub detail: String,
+    /// machine-readable pointer for the minimiser (e.g. the failing delivery)
+    #[serde(default)]
+    pub hint: Option<Value>,
 }
 impl Viol {
     pub fn new(class: &str, sig: impl Into<String>, detail: impl Into<String>) -> Self {
-        Viol { class: class.to_string(), sig: sig.into(), detail: detail.into() }
+        Viol { class: class.to_string(), sig: sig.into(), detail: detail.into(), hint: None }
+    }
+    pub fn with_hint(mut self, hint: Value) -> Self {
+        self.hint = Some(hint);
+        self
     }
 }
 
@@ -78,7 +85,7 @@ pub trait Check: Sync {
     /// pure function of the scenario and the code under test
     fn execute(&self, scn: &Value, st: &mut Stats) -> Verdict;
     /// simpler candidate scenarios, most aggressive first
-    fn shrink(&self, _scn: &Value) -> Vec<Value> {
+    fn shrink(&self, _scn: &Value, _viol: &Viol) -> Vec<Value> {
         vec![]
     }
 }
@@ -336,7 +343,7 @@ pub fn minimise(check: &dyn Check, scn: Value, v: &Viol, budget: u64) -> (Value,
     let mut spent = 0u64;
     let mut steps = 0u64;
     'outer: loop {
-        for cand in check.shrink(&cur) {
+        for cand in check.shrink(&cur, &cur_v) {
             if spent >= budget {
                 break 'outer;
             }
